@@ -227,8 +227,12 @@ def r_lock_5( ctx ):
     ex = src.get( 'dfa_post.__exit__' )
     cfg = CFG( ex )
     sup = [ nd for nd in cfg.nodes if nd.stmt is not None and nd.kind == 'stmt' and any( is_call_to( c, '__exit__' ) and isinstance( c.func, ast.Attribute ) and is_call_to( c.func.value, 'super' ) for c in ast.walk( nd.stmt )) ]
-    inv = [ nd for nd in cfg.nodes if nd.stmt is not None and nd.kind == 'stmt' and pmatch( nd.stmt, 'closure()' ) ]
-    pops = [ c for c in ast.walk( ex ) if is_call_to( c, 'post_list.pop' ) or ( isinstance( c, ast.Call ) and isinstance( c.func, ast.Attribute ) and c.func.attr == 'pop' ) ]
+    pops = [ c for c in ast.walk( ex ) if isinstance( c, ast.Call ) and isinstance( c.func, ast.Attribute ) and c.func.attr == 'pop' ]
+    # the invoked closure is the value popped from the pending list (whatever the local is called)
+    popped = { t.id for s_ in ast.walk( ex ) if isinstance( s_, ast.Assign ) and any( p is s_.value or p in list( ast.walk( s_.value )) for p in pops )
+               for t in s_.targets if isinstance( t, ast.Name ) }
+    inv = [ nd for nd in cfg.nodes if nd.stmt is not None and nd.kind == 'stmt' and isinstance( nd.stmt, ast.Expr ) and isinstance( nd.stmt.value, ast.Call )
+            and isinstance( nd.stmt.value.func, ast.Name ) and nd.stmt.value.func.id in popped ]
     if not sup or not inv or not pops:
         raise AnalysisError( 'dfa_post.__exit__: release / pop / invoke statements not found' )
     # pop under lock
